@@ -515,7 +515,7 @@ def writeRecord (F : FloatFmt) (h : Hdr) (r : Rec) : Except Err Bytes := do
   let info ← orErr .info (writeInfo F h r.info)
   let fixed := chrom ++ TAB :: writePos r.pos ++ TAB :: ids ++ TAB :: ref ++ TAB :: alts ++ TAB ::
     writeQual F r.qual ++ TAB :: filters ++ TAB :: info
-  if r.samples = [] then .ok fixed
+  if r.samples = [] ∨ r.keys = [] then .ok fixed
   else do
     let keys ← orErr .samples (writeKeys r.keys)
     let ss ← orErr .samples (writeSamples F h r.keys r.samples)
